@@ -938,7 +938,7 @@ func runBatch(scs []*Scenario, par int) {
 	var again []int
 	for i := range scs {
 		v := results[i].verd
-		if v != "" && (isTimingVerdict(v) || scs[i].Sensitive) && len(again) < 5 {
+		if v != "" && (isTimingVerdict(v) || scs[i].Sensitive) && len(again) < 12 {
 			again = append(again, i)
 		}
 	}
